@@ -123,6 +123,12 @@ class BoboValidatorJSONSchema(BoboValidatorJSONable):
 
         :raises: BoboValidatorError: Invalid JSON schema.
         """
+        if isinstance(data, BoboEvent):
+            data = data.data
+
+        if not super().is_valid(data):
+            return False
+
         try:
             jsonschema_validate(instance=data, schema=self._schema)
 
